@@ -53,17 +53,17 @@ def attach():
         return False
     orig = {n: getattr(S, n) for n in names}
 
-    def get_shape_memo():
-        out = orig["get_shape_memo"]()
+    def get_shape_memo(*a, **k):
+        out = orig["get_shape_memo"](*a, **k)
         sh = _sh()
         counters["get_shape"] += 1
-        if sh.stack:
+        if sh.stack and sh.stack[-1] is not None:
             if tuple(map(id, out)) != sh.stack[-1]:
                 _viol("ownership", f"get_shape_memo returned dicts {tuple(map(id, out))} but this thread's top context is {sh.stack[-1]}")
         return out
 
-    def set_shape_memo(a, b, c, d):
-        r = orig["set_shape_memo"](a, b, c, d)
+    def set_shape_memo(*a, **k):
+        r = orig["set_shape_memo"](*a, **k)
         sh = _sh()
         counters["set"] += 1
         if sh.stack:
@@ -71,26 +71,29 @@ def attach():
             sh.stack[-1] = now  # replacement of the dict objects by the owner is legal
         return r
 
-    def push_shape_memo(arguments):
-        memos = orig["push_shape_memo"](arguments)
-        _sh().stack.append(tuple(map(id, memos)))
+    def push_shape_memo(*a, **k):
+        memos = orig["push_shape_memo"](*a, **k)
+        try:
+            _sh().stack.append(tuple(map(id, memos)))
+        except TypeError:
+            _sh().stack.append(None)
         counters["push"] += 1
         return memos
 
-    def pop_shape_memo():
+    def pop_shape_memo(*a, **k):
         sh = _sh()
         counters["pop"] += 1
         if not sh.stack:
             _viol("balance", "pop_shape_memo on a thread that has no open context")
         else:
             sh.stack.pop()
-        return orig["pop_shape_memo"]()
+        return orig["pop_shape_memo"](*a, **k)
 
-    def get_treepath_memo():
+    def get_treepath_memo(*a, **k):
         sh = _sh()
         counters["get_path"] += 1
         try:
-            out = orig["get_treepath_memo"]()
+            out = orig["get_treepath_memo"](*a, **k)
         except BaseException:
             if sh.path is not None:
                 _viol("ownership", f"get_treepath_memo raised although this thread set label {sh.path!r}")
@@ -99,8 +102,8 @@ def attach():
             _viol("ownership", f"get_treepath_memo returned {out!r} but this thread set {sh.path!r}")
         return out
 
-    def set_treepath_memo(index, structure):
-        r = orig["set_treepath_memo"](index, structure)
+    def set_treepath_memo(*a, **k):
+        r = orig["set_treepath_memo"](*a, **k)
         # what the accessor hands out right now is what this thread "stored" - never the
         # representation kept inside the storage (which a refactoring is free to change)
         try:
@@ -109,24 +112,24 @@ def attach():
             _sh().path = "<unknown>"
         return r
 
-    def clear_treepath_memo():
+    def clear_treepath_memo(*a, **k):
         _sh().path = None
-        return orig["clear_treepath_memo"]()
+        return orig["clear_treepath_memo"](*a, **k)
 
-    def get_treeflatten_memo():
-        out = orig["get_treeflatten_memo"]()
+    def get_treeflatten_memo(*a, **k):
+        out = orig["get_treeflatten_memo"](*a, **k)
         counters["get_flat"] += 1
         if bool(out) != bool(_sh().flat):
             _viol("ownership", f"get_treeflatten_memo returned {out!r} but this thread last stored {_sh().flat!r}")
         return out
 
-    def set_treeflatten_memo():
+    def set_treeflatten_memo(*a, **k):
         _sh().flat = True
-        return orig["set_treeflatten_memo"]()
+        return orig["set_treeflatten_memo"](*a, **k)
 
-    def clear_treeflatten_memo():
+    def clear_treeflatten_memo(*a, **k):
         _sh().flat = False
-        return orig["clear_treeflatten_memo"]()
+        return orig["clear_treeflatten_memo"](*a, **k)
 
     wrappers = dict(locals())
     n_wrapped = 0
